@@ -55,11 +55,15 @@ def gen_pyexpr(rng, depth):
     return ("dict", [(("s", rng.choice(["k", "}", ")"])), gen_pyexpr(rng, depth - 1)) for _ in range(rng.randint(1, 2))])
 
 
+BT_NAME = []  # set around show_py calls by cases()
+
+
 def show_py(e, rng):
     w = lambda: rng.choice(["", "", " ", "  "])
     k = e[0]
     if k == "n":
-        return e[1]
+        # optionally one name of the fragment is a backtick-quoted (non-identifier) column name
+        return BT_NAME[0] if (BT_NAME and e[1] == "a") else e[1]
     if k == "c":
         return repr(e[1])
     if k == "s":
@@ -104,7 +108,11 @@ def cases(rng, tier):
             yield dict(kind="name", name=name, tmpl=tmpl, s=tmpl.format(name))
         elif r < 0.85:
             e = gen_pyexpr(rng, 3)
+            BT_NAME.clear()
+            if rng.random() < 0.35:
+                BT_NAME.append("`" + rng.choice(["a b", "x+y", "2nd", "it's", "p)q", "é"]) + "`")
             a, b = show_py(e, rng), show_py(e, rng)
+            BT_NAME.clear()
             form = rng.choice(["call", "brace"])
             if form == "call":
                 a, b = "f(" + a + ")", "f( " + b + " )"
@@ -219,6 +227,14 @@ def classify(c, o, why):
         return "C15-F1"
     if c["kind"] == "name" and c["name"] == "1" and "no lookup factor" in str(why):
         return "C15-F2"
+    if c["kind"] == "py":
+        import re as _re
+
+        for frag in (c["frag"], c["frag2"]):
+            for nm in _re.findall(r"`([^`]*)`", frag):
+                for q in "'\"":
+                    if q in nm and frag.count(q) >= 2:
+                        return "C15-F3"
     return None
 
 
